@@ -275,6 +275,12 @@ ARGS = [[], [('i', 1)], [('i', 1), ('i', 2)], [('i', 2), ('s', 'x')], [('s', 'x'
         [('b', b'')], [('b', b'x')], [('i', 0), ('i', 0)], [('f', 1.0), ('s', '')]]
 
 
+# signature shapes of responder callables -> how many of (msg, time, addr, port) they must receive
+CAP = {'full': 4, 'n3': 3, 'n2': 2, 'n1': 1, 'n0': 0, 'posonly': 4, 'posonly2': 2, 'varargs': 4, 'mixed': 4, 'kwonly': 2,
+       'kwargs': 1, 'defaults': 4, 'partial': 2, 'object': 3, 'method': 1, 'builtin': 1}
+KW_SHAPES = ('kwonly', 'kwargs')
+
+
 def gen_history(rng, maxops):
     """shape: 'plain' (both dispatchers, fresh functions), 'share' (one dispatcher kind, function
     objects shared between responders), 'raise' (one dispatcher kind, some functions / template
@@ -284,6 +290,7 @@ def gen_history(rng, maxops):
     kind = 'plain' if rng.random() < 0.6 else rng.choice(['share', 'raise'])
     only = None if kind == 'plain' else (rng.random() < 0.5)
     shared_tags = []
+    has_builtin = [False]
 
     def new_fn():
         nonlocal tag
@@ -294,7 +301,13 @@ def gen_history(rng, maxops):
             tag += 1
             return {'tag': shared_tags[-1], 'share': True}
         tag += 1
-        return {'tag': tag - 1, 'raises': kind == 'raise' and rng.random() < 0.35}
+        f = {'tag': tag - 1, 'raises': kind == 'raise' and rng.random() < 0.35}
+        if not f['raises'] and rng.random() < 0.35:
+            shapes = [x for x in CAP if x != 'full' and (x != 'builtin' or not has_builtin[0])]
+            f['shape'] = rng.choice(shapes)
+            if f['shape'] == 'builtin':
+                has_builtin[0] = True
+        return f
 
     for _ in range(rng.randint(3, maxops)):
         k = rng.random()
@@ -367,6 +380,31 @@ def matrix_histories(rng):
     return hs
 
 
+def shape_histories(rng):
+    """every signature shape of a responder callable (fewer parameters, positional-only, *args, keyword-only,
+    **kwargs, defaults, functools.partial, callable object, bound method, builtin bound method), on both
+    dispatchers, plain / one_shot / after a function replacement / behind a filter wrapper"""
+    hs = []
+    shapes = list(CAP)
+    for matching in (False, True):
+        order = shapes[:]
+        rng.shuffle(order)
+        ops = [['create', '/a', matching, None, None, None, {'tag': k, 'shape': sh}] for k, sh in enumerate(order)]
+        ops += [['dgram', enc_msg('/a', [('i', 1), ('s', 'x')])[0].hex(), SENDERS[0], 0]]
+        ops += [['one_shot', k] for k in range(0, len(order), 2)]
+        ops += [['dgram', enc_bundle((1 << 40) + 7, [(enc_msg('/a', [])[0], ([], []))])[0].hex(), SENDERS[1], 1]]
+        ops += [['dgram', enc_msg('/a', [('i', 2)])[0].hex(), SENDERS[0], 0]]
+        hs.append(ops)
+        order2 = [x for x in shapes if x != 'builtin']
+        rng.shuffle(order2)
+        ops = [['create', '/a', matching, rng.choice([None, ['127.0.0.1', None]]), rng.choice([None, 0]), rng.choice([None, [None]]), {'tag': 0}]
+               for _ in order2]
+        ops += [['set_func', k, {'tag': 100 + k, 'shape': sh}] for k, sh in enumerate(order2)]
+        ops += [['dgram', enc_msg('/a', [('i', 1)])[0].hex(), SENDERS[0], 0]]
+        hs.append(ops)
+    return hs
+
+
 def fn(tag, **kw):
     d = {'tag': tag}
     d.update(kw)
@@ -376,6 +414,7 @@ def fn(tag, **kw):
 def hist_kind(h):
     fns = [op[6] for op in h if op[0] == 'create'] + [op[2] for op in h if op[0] == 'set_func']
     return {'share': any(f.get('share') for f in fns), 'raise': any(f.get('raises') for f in fns),
+            'kw': any(f.get('shape') in KW_SHAPES for f in fns), 'shapes': {f['tag']: f.get('shape', 'full') for f in fns},
             'predx': any(isinstance(op[5], list) and ['pred', 'gt5raw'] in op[5] for op in h if op[0] == 'create')}
 
 
@@ -446,12 +485,17 @@ def op_term(op, ports):
     raise ValueError(op)
 
 
+DUMMY_MSG = [[], []]
+
+
 def inv_term(x):
-    if isinstance(x, str):       # HANG / RAISED / OPERROR marker: never equal to a model invocation
-        return '{| i_id := 99999%nat; i_tag := 0%nat; i_msg := {| m_addr := []; m_args := [] |}; i_time := TNow; i_src := (0, 0); i_port := 0 |}'
-    rid, tag, msg, t, sa, sp, rp = x
-    return '{| i_id := %d%%nat; i_tag := %d%%nat; i_msg := %s; i_time := %s; i_src := (%d, %d); i_port := %d |}' % (
-        rid, tag, cmsg(msg), ctime(t), sa, sp, rp)
+    """(inv, number of leading arguments the callable received); fields not received are dummies"""
+    if isinstance(x, str):       # HANG / RAISED / OPERROR / ARITY marker: never equal to a model invocation
+        return '({| i_id := 99999%nat; i_tag := 0%nat; i_msg := {| m_addr := []; m_args := [] |}; i_time := TNow; i_src := (0, 0); i_port := 0 |}, 4%nat)'
+    rid, tag, msg, t, sa, sp, rp, n = x
+    return '({| i_id := %d%%nat; i_tag := %d%%nat; i_msg := %s; i_time := %s; i_src := (%d, %d); i_port := %d |}, %d%%nat)' % (
+        rid, tag, cmsg(msg if n >= 1 else DUMMY_MSG), ctime(t) if n >= 2 else 'TNow', sa if n >= 3 else 0, sp if n >= 3 else 0,
+        rp if n >= 4 else 0, n)
 
 
 def state_term(st):
@@ -497,16 +541,27 @@ Definition round53 (n : Z) : Z :=
        Z.shiftl (if (h <? r) || ((r =? h) && Z.odd q) then q + 1 else q) k.
 Definition time_agree (model impl : mtime) : bool :=
   match model, impl with TNow, TNow => true | TTag x, TTag y => round53 x =? y | _, _ => false end.
-(* 77777 = the invocation came from a function object shared by several responders *)
-Definition inv_agree (a b : inv) : bool :=
-  (Nat.eqb (i_id b) 77777 || Nat.eqb (i_id a) (i_id b)) && Nat.eqb (i_tag a) (i_tag b) && omsg_eqb (i_msg a) (i_msg b) && time_agree (i_time a) (i_time b)
-  && (fst (i_src a) =? fst (i_src b)) && (snd (i_src a) =? snd (i_src b)) && (i_port a =? i_port b).
+(* 77777 = the invocation came from a function object shared by several responders; n = how many of
+   (msg, time, addr, port) the callable takes and received: only those are compared *)
+Definition inv_agree (a : inv) (bn : inv * nat) : bool :=
+  let b := fst bn in let n := snd bn in
+  (Nat.eqb (i_id b) 77777 || Nat.eqb (i_id a) (i_id b)) && Nat.eqb (i_tag a) (i_tag b)
+  && (Nat.ltb n 1 || omsg_eqb (i_msg a) (i_msg b)) && (Nat.ltb n 2 || time_agree (i_time a) (i_time b))
+  && (Nat.ltb n 3 || ((fst (i_src a) =? fst (i_src b)) && (snd (i_src a) =? snd (i_src b)))) && (Nat.ltb n 4 || (i_port a =? i_port b)).
+Fixpoint invs_agree (a : list inv) (b : list (inv * nat)) : bool :=
+  match a, b with
+  | [], [] => true
+  | x :: a', y :: b' => inv_agree x y && invs_agree a' b'
+  | _, _ => false
+  end.
 (* invocations of the two dispatchers may interleave either way in the implementation: compare per dispatcher *)
 (* a history that shares function objects uses one dispatcher kind only: a wildcard id has the kind of responder 0 *)
 Definition is_matching (st : dstate) (i : inv) : bool :=
   match nth_error (resps st) (if Nat.eqb (i_id i) 77777 then 0%nat else i_id i) with Some r => r_matching r | None => false end.
 Definition split_d (st : dstate) (l : list inv) : list inv :=
   filter (fun i => negb (is_matching st i)) l ++ filter (is_matching st) l.
+Definition split_d2 (st : dstate) (l : list (inv * nat)) : list (inv * nat) :=
+  filter (fun i => negb (is_matching st (fst i))) l ++ filter (fun i => is_matching st (fst i)) l.
 (* the dispatchers' tables, the enabled flags and CmdPeriod's registry after every operation *)
 Definition sstate := (list bool * list (list Z * list nat) * list (list Z * list nat) * list nat * list nat * list nat)%type.
 Definition tbl_agree (t : table) (e : list (list Z * list nat)) : bool :=
@@ -519,16 +574,16 @@ Definition state_agree (st : dstate) (e : sstate) : bool :=
     && list_eqb Nat.eqb (cmdp st) cp
     (* each dispatcher's wrapped_funcs lists ITS responders in registration order (what the matching dispatcher walks) *)
     && list_eqb Nat.eqb (kind false) we && list_eqb Nat.eqb (kind true) wm end.
-Fixpoint outs_agree (stepf : dstate -> op -> dstate * list inv) (st : dstate) (h : list op) (exp : list (list inv * sstate)) : bool :=
+Fixpoint outs_agree (stepf : dstate -> op -> dstate * list inv) (st : dstate) (h : list op) (exp : list (list (inv * nat) * sstate)) : bool :=
   match h, exp with
   | [], [] => true
   | o :: h', (e, se) :: exp' =>
     let '(st', out) := stepf st o in
-    list_eqb inv_agree (split_d st' out) (split_d st' e) && state_agree st' se && outs_agree stepf st' h' exp'
+    invs_agree (split_d st' out) (split_d2 st' e) && state_agree st' se && outs_agree stepf st' h' exp'
   | _, _ => false
   end.
 (* every history through the raising-callback model; a history without raising callbacks also through model/Dispatch.v *)
-Definition hist_agree (c : list op * list nat * bool * list (list inv * sstate)) : bool :=
+Definition hist_agree (c : list op * list nat * bool * list (list (inv * nat) * sstate)) : bool :=
   match c with (h, rs, calm, exp) =>
     outs_agree (step_x (fun tag => existsb (Nat.eqb tag) rs)) init_state h exp
     && (negb calm || outs_agree step init_state h exp) end.
@@ -818,7 +873,7 @@ def free_port_base(rng):
 
 def corr_rt(ctx, c):
     rng = ctx.rng
-    hists = list(FIXED_HISTORIES) + matrix_histories(rng) + [gen_history(rng, rng.choice([8, 14, 22])) for _ in range(ctx.n(280, 3000))]
+    hists = list(FIXED_HISTORIES) + matrix_histories(rng) + shape_histories(rng) + [gen_history(rng, rng.choice([8, 14, 22])) for _ in range(ctx.n(280, 3000))]
     corpus = os.path.join(fw.VERIF, 'corpus', 'C18_histories.json')
     if os.path.exists(corpus):
         hists = json.load(open(corpus)) + hists
@@ -843,6 +898,14 @@ def corr_rt(ctx, c):
                                   signature='C18:shared-function-replace-order', found_input=True, theorem='dispatch_exact',
                                   replay={'kind': 'probe', 'probe': 'shared_replace', 'impl': pr['shared_replace'],
                                           'how': "r0 = OscFunc(F, '/p'); r1 = OscFunc(F, '/p'); r1.func = G; send '/p'"}))
+    kw_defect = pr['signatures'] != [['kwonly', 2], ['kwargs', 1], ['last', 1]]
+    if kw_defect:
+        c.failures.append(Failure('correspondence', "responders on one path with functions `def f(msg, time, *, flag=True)`, `def g(msg, **kw)`, `def h(msg)`: "
+                                  'a message invokes %s, expected all three with their leading arguments (functions.value passes as many positional '
+                                  'arguments as the callable has parameters of ANY kind: TypeError in the dispatch, the later responders are skipped)' % pr['signatures'],
+                                  signature='C18:callable-keyword-only-parameters', found_input=True, theorem='dispatch_exact',
+                                  replay={'kind': 'probe', 'probe': 'signatures', 'impl': pr['signatures'],
+                                          'how': "OscFunc(lambda msg, time, *, flag=True: ..., '/p'); send '/p'"}))
     order_defect = pr['matching_order'] != [0, 1, 2]
     if order_defect:
         c.failures.append(Failure('correspondence', "matching responders 0 ('/c18a'), 1 ('/c18b'), 2 ('/c18a') in this order; the message '/c18?' invokes %s, "
@@ -876,7 +939,10 @@ def corr_rt(ctx, c):
             lg = r['log']
             if op[0] == 'create' and op[1] == '' and lg == ['OPERROR:IndexError']:
                 lg = []                                   # path[0] on '' : refused, as the model says
-            exp.append('(([%s] : list inv), %s)' % ('; '.join(inv_term(x) for x in lg), state_term(r['state'])))
+            lg = [x if isinstance(x, str) or x[7] == CAP[hk['shapes'].get(x[1], 'full')] else
+                  'ARITY: %s callable received %d of (msg, time, addr, port), it takes %d' % (hk['shapes'].get(x[1]), x[7], CAP[hk['shapes'].get(x[1], 'full')])
+                  for x in lg]
+            exp.append('(([%s] : list (inv * nat)), %s)' % ('; '.join(inv_term(x) for x in lg), state_term(r['state'])))
         calm = not (hk['raise'] or hk['predx'])
         items.append('([%s], ([%s] : list nat), %s, [%s])' % ('; '.join(op_term(op, ports) for op in h),
                                                                 '; '.join('%d%%nat' % t for t in raises_of(h)), cbool(calm), '; '.join(exp)))
@@ -897,6 +963,9 @@ def corr_rt(ctx, c):
         if share and shared_defect:
             c.count('history-mismatch-explained-by:C18:shared-function-replace-order')
             continue
+        if kw_defect and hist_kind(hists[i])['kw']:
+            c.count('history-mismatch-explained-by:C18:callable-keyword-only-parameters')
+            continue
         mpaths = set((op[1] if op[1].startswith('/') else '/' + op[1]) for op in hists[i] if op[0] == 'create' and op[2] and op[1])
         if order_defect and len(mpaths) >= 2:
             c.count('history-mismatch-explained-by:C18:matching_order_grouped_by_path')
@@ -906,7 +975,7 @@ def corr_rt(ctx, c):
         shown += 1
         c.failures.append(Failure('correspondence', 'responder history: model and implementation disagree (invocations, dispatcher tables, enabled '
                                   'flags or CmdPeriod registry); ops=%s impl=%s' % (json.dumps(hists[i]), json.dumps(
-                                      [{'log': [x if isinstance(x, str) else x[:2] for x in r['log']], 'state': r['state']} for r in res['histories'][i]])),
+                                      [{'log': [x if isinstance(x, str) else x[:2] + [x[7]] for x in r['log']], 'state': r['state']} for r in res['histories'][i]])),
                                   replay={'kind': 'history', 'ops': hists[i], 'impl': res['histories'][i], 'ports': ports}))
     left = [(i, l) for i, l in enumerate(res['leftover']) if l != [0, 0]]
     if left:
